@@ -86,10 +86,12 @@ def region_family():
 REGION_WORDS = [[b'e', b'f'], [b'f', b'e'], [b'e', b'f', b'back', b'f'], [b'f', b'f', b'e'], [b'e', b'back', b'e', b'f']]
 
 
-def done_family():
+def done_family(hist=None):
     """<parallel> (optionally nested in a region of another <parallel>) whose regions reach <final> children on
     events, with or without a transition on its done.state event and with a second outer region that is busy, final
-    or finishing on the same event: the situations in which the engines decide `all regions are final`"""
+    or finishing on the same event: the situations in which the engines decide `all regions are final`.
+    hist = 'hs' | 'hd': the inner <parallel> additionally owns a <history> child (its type byte in the generated tables then
+    carries the has-history flag)"""
     N, T = G.node, G.trans
     out = []
     for nested in (False, True):
@@ -101,6 +103,8 @@ def done_family():
                             N('state', 4, [N('state', 5, trans=[T(101, b'e', None, [6])]), N('final', 6)]),
                             N('state', 7, [N('state', 8, trans=[T(102, ev2, None, [9])]), N('final', 9)])],
                             trans=([T(103, b'done.state.s3', None, [10])] if ondone else []))
+                        if hist:
+                            inner['kids'].insert(0, N(hist, 20, trans=[T(120, None, None, [4, 7] if hist == 'hs' else [5, 8])]))
                         work = N('state', 2, [inner, N('state', 10)])
                         if nested:
                             other = N('state', 11, [N('state', 12, trans=[T(104, ev3, None, [13])]), N('final' if o2final else 'state', 13)])
@@ -207,6 +211,10 @@ def build_cases(c, faults=0.0):
     for t in done_family():
         for w in DONE_WORDS:
             cases.append({'tree': t, 'events': w, 'dm': 'null', 'late': False, 'origin': 'done-family'})
+    for h in ('hs', 'hd'):
+        for k, t in enumerate(done_family(hist=h)):
+            for w in (DONE_WORDS[k % len(DONE_WORDS)], DONE_WORDS[(k + 3) % len(DONE_WORDS)]):
+                cases.append({'tree': t, 'events': w, 'dm': 'null', 'late': False, 'origin': 'done-family-history'})
     for t in history_family():
         for w in HISTORY_WORDS:
             cases.append({'tree': t, 'events': w, 'dm': 'null', 'late': False, 'origin': 'history-family'})
